@@ -93,7 +93,27 @@ def r10_lines(ctx, want_sub):
     return out
 
 
+def pivoted_lines(ctx, want_sub):
+    """presentations (random ternary pivots, permutations, scalings) of Camion-signed regular matroids up to 7x7 —
+    R10, R12 and 3-sums of a graphic and a cographic matroid: they reach the ternary 3-sum / pivot code of the
+    decomposition under all five strategies; about a third are corrupted in one entry"""
+    rng = ctx.rng.fork("tu-pivoted%d" % want_sub)
+    seeds = gen.library_signed(ctx.drive("rel"), gen.deep_binary_seeds(rng, 10 if ctx.quick else 60, 49))
+    out = []
+    strategies = list(gen.STRATEGIES.values())
+    for _ in range(1500 if ctx.quick else 40000):
+        M = gen.pivoted_presentation(rng, [r[:] for r in rng.choice(seeds)], rng.below(4))
+        if rng.below(3) == 0:
+            M = gen.corrupt(rng, M, (-1, 0, 1))
+        c = gen.cfg(algorithm=0, ternary=1 if rng.below(4) else 0, camionFirst=rng.below(2), strategy=rng.choice(strategies),
+                    direct=rng.below(2), sp=rng.below(2), wantSub=want_sub)
+        out.append(gen.cfg_line(c) + " " + mat_line(M))
+    return out
+
+
 def run(ctx):
+    ctx.stream("tu", pivoted_lines(ctx, 0), "pivoted presentations of signed regular matroids (R10, R12, 3-sums)",
+               describe=lambda c: CODES.get(c, str(c)), nontrivial=nontrivial, keyfn=keyfn)
     ctx.stream("tu_signed", r10_lines(ctx, 0), "Camion-signed 5x5 matrices passing the R10 count test", judge_api="tu",
                describe=lambda c: CODES.get(c, str(c)), nontrivial=nontrivial, keyfn=keyfn)
     lines = tu_lines(ctx, 0)
